@@ -39,6 +39,11 @@ func Harness_C13_PublishOverlap() {
 		if verif.Choose("publication-settles-before-the-next-checkpoint", 2) == 1 {
 			verif.Quiesce()
 		}
+		if verif.Param("ASSEMBLY", 1) == 1 && verif.Choose("new-assembly-before-the-next-checkpoint", 2) == 1 {
+			// the job starts a new assembly (Job.start): nothing is pending, a new splitter registers
+			store.AbandonPendingCheckpoint()
+			store.RegisterSourceSplitter(&verifSplitter{state: []byte("splitter")})
+		}
 	}
 	verif.Quiesce()
 	// every delayed step runs to completion
